@@ -8,8 +8,9 @@ PROPS = {
         "with symbolic grid extents and symbolic values) and its result term is proved equal to the published defining sum "
         "for all grid sizes, values, dimension orders and leading dimensions; callees are replaced by their contracts.",
         "trusted_base": ["numpy/xarray operation contracts in engine/pyse/arrays.py, xrs.py", "lean/Lemmas.lean Sigma lemmas"],
-        "assumptions": ["dispersion accuracy of wavenuma (0.1 percent) is a numeric statement and is not decided here; "
-                        "only the Chen-Thomson formula itself is proved", "float32 inputs are decided as reals"],
+        "assumptions": ["dispersion accuracy of wavenuma/celerity/wavelen (0.1 percent) is a numeric statement: BOUNDED sweep of 20001 relative "
+                        "depths x 3 water depths against the Newton solution on every run; only the Chen-Thomson formula itself is proved",
+                        "float32 inputs are decided as reals"],
     },
     "C02": {
         "level": "proof",
@@ -19,7 +20,9 @@ PROPS = {
         "three-point parabola, strictly between the neighbour periods); the xrstats wrappers and accessor methods are proved to "
         "evaluate every peak statistic at that same index, per position, NaN exactly when there is no peak.",
         "trusted_base": ["numpy/xarray operation contracts in engine/pyse (argmax = first index of maximum, concat, diff, where, apply_ufunc(vectorize) = per-position application)"],
-        "assumptions": ["alpha: only absence of exceptions on all paths is proved for all inputs; its value is checked against the window-mean definition on concrete replays only (bounded)",
+        "assumptions": ["alpha: the kernel npstats.alpha is abstracted as an uninterpreted function of (spectrum, grid, peak frequency): proved are absence of "
+                        "exceptions on all its paths, NaN for a NaN peak frequency, and that wrapper and accessor evaluate it at the peak frequency of the true peak; "
+                        "its value is checked against the window-mean definition on concrete replays only (bounded)",
                         "float32 casts of the returned values are identities"],
     },
     "C04": {
@@ -33,7 +36,7 @@ PROPS = {
         "shift-equivariance as corollaries; the level discretisation lands in [0, ihmax-1]. BOUNDED (not proved): the whole-watershed "
         "postcondition (every bin labelled, one partition per regional maximum of the discretised field, each partition connected on the "
         "circular grid, shift equivariance) is an executable contract evaluated on the C code compiled from the current tree for every grid "
-        "with nk*nth <= 6 (quick) / 9 (thorough) over a 3-value alphabet and ihmax in {1,2,3,100}, plus seeded random grids in thorough.",
+        "with nk*nth <= 6 (quick) / 9 (thorough) over a 3-value alphabet and ihmax in {1,2,3,100}, plus seeded random grids (quick: 12000 grids up to 8x8 x 7 level counts; thorough: larger).",
         "trusted_base": ["clang's parse of specpart.c", "engine/cvc symbolic executor and its loop-cutting", "independent Python oracle bounded/specpart/oracle.py"],
         "assumptions": ["whole-algorithm correctness of the immersion (pt_fld) is NOT proved; only bounded",
                         "spectra whose range max-min is below 1e-9 are treated as constant by the C code (advisory finding of the bounded harness)"],
@@ -278,10 +281,11 @@ PROPS = {
         "gridded lat x lon with unequal sizes, plain and gzip, ntime in {None,1,2,3}, sorted / rolled directions, zero spectra, energies over 9 "
         "orders of magnitude), Octopus (one site), JSON (station / grid, NaN spectra) and Funwave (one spectrum, no clipping): the file read "
         "back has the same times, positions, frequencies, directions and every spectrum at the position it was written from within the "
-        "format's resolution (SWAN: max/9998 per spectrum). PROVED (z3 scalar lemmas on the real helper): turning a direction by 180 twice and "
+        "format's resolution (SWAN: max/9998 per spectrum); WW3 netCDF (lon/lat as variables or as coordinates) and wavespectra netCDF (plain and "
+        "int32-packed, resolution 1e-5) through xarray's scipy backend (NETCDF3). PROVED (z3 scalar lemmas on the real helper): turning a direction by 180 twice and "
         "to_nautical twice are the identity on [0,360), the degree/radian density factors cancel.",
         "trusted_base": ["decimal formatting/parsing (numpy.savetxt/genfromtxt, f-strings, gzip, json) - assumed, exercised by the bounded runs"],
-        "assumptions": ["netCDF-based pairs (wavespectra netCDF, WW3 netCDF) cannot run offline (netCDF4 missing): not covered",
+        "assumptions": ["NETCDF4 / zlib / zarr encodings cannot run offline (netCDF4, h5netcdf, zarr missing): the netCDF pairs are exercised as NETCDF3 only",
                         "index maps of writers/readers are not proved symbolically"],
         "technique": "run-time round-trip contracts with format resolution oracles (bounded) + z3 scalar lemmas for unit/direction inverses",
     },
